@@ -462,6 +462,37 @@ def equality_clause(n, seed, acc):
                                   "what": "equal_parameters_other_layout_not_equal_or_hash"},
                           kind="equality", observed=[bool(a == b), hash(a) == hash(b)],
                           expected="== and equal hash")
+    # containers supplied by the caller (lists of factors / blocks): editing the caller's list
+    # afterwards must not change the matrix
+    Bc, Tc = mzoo.P_spd(n, seed), mzoo.P_tri(n, seed, True)
+    for label, cls, items in (
+            ("product_from_list", M.MatrixProduct,
+             lambda: [M.DenseSquareMatrix(Bc.copy()), M.TriangularMatrix(Tc.copy())]),
+            ("square_product_from_list", M.SquareMatrixProduct,
+             lambda: [M.DenseSquareMatrix(Bc.copy()), M.TriangularMatrix(Tc.copy())]),
+            ("block_diag_from_list", M.SquareBlockDiagonalMatrix,
+             lambda: [M.DenseSquareMatrix(Bc.copy()), M.TriangularMatrix(Tc.copy())])):
+        acc.count("equality_pairs")
+        try:
+            lst = items()
+            m = cls(lst)
+            before = np.array(m.array)
+            v = np.arange(1.0, m.shape[1] + 1)
+            mv = np.array(m @ v)
+            shape = tuple(m.shape)
+            lst[0] = M.DenseSquareMatrix(2.0 * Bc)
+            lst.append(M.IdentityMatrix(n))
+            same = tuple(m.shape) == shape and np.array_equal(np.array(m.array), before) \
+                and np.array_equal(np.array(m @ v), mv)
+        except Exception as e:  # noqa: BLE001
+            same = False
+            before = repr(e)[:100]
+        if not same:
+            acc.violation(driver="pairs", config={"pair": label, "seed": seed, "n": n},
+                          fields={"class": cls.__name__,
+                                  "what": "matrix_changes_when_callers_list_is_edited"},
+                          kind="parameter_changed", observed="changed",
+                          expected="independent of later edits of the list passed in")
     for label, fa, fb in direct_pairs(n, seed):
         acc.count("equality_pairs")
         a, b = fa(), fb()
